@@ -235,7 +235,10 @@ def readOnlyUses : List String :=
    "self.diff_objects.is_empty", "self.diff_objects.first", "self.diff_objects.last",
    "&self.osu_objects", "self.osu_objects.is_empty",
    -- advancing the `slice::Iter` moves the pointer pair inside the same block
-   "self.diff_objects_iter.next", "self.diff_objects_iter.len", "self.diff_objects_iter.as_slice"]
+   "self.diff_objects_iter.next", "self.diff_objects_iter.len", "self.diff_objects_iter.as_slice",
+   -- `for curr in self.diff_objects_iter.by_ref()` (fix b92f186: drain the trailing drum rolls): `by_ref` is
+   -- `&mut slice::Iter`, the loop only calls `next` on it
+   "self.diff_objects_iter.by_ref"]
 
 /-- After construction, every use of the owner and borrower fields (in the only files that can
 name them: the fields are private) is a shared read: `mutateOwner` is not an operation of the real
